@@ -268,6 +268,48 @@ type xfJob struct {
 	Cfg  xfCfg
 	Seed int64
 	Idx  int
+	Big  bool // a job of xfBigPacketCases instead of the variant sweep
+}
+
+// The largest DATA payload that fits the package's 262144-byte frame limit is 262135 bytes (9 bytes of
+// type, id and length); with the allocator a page holds payload + 13 bytes of headers, i.e. 262131.
+// A client packet size just below, at and above that page boundary, against servers whose max-tx-packet
+// is raised to 262144, is still inside the property's domain for reads. (A WRITE frame adds 21 bytes
+// plus the handle, so multi-chunk writes of such packets cannot be framed; writes stay single-chunk here.)
+var xfBigPackets = []int{262131, 262132, 262135}
+
+const xfBigMaxTx = 262144
+
+// xfBigPacketCases: reads of k*p-1, k*p, k*p+1 bytes (k <= 3) ending at end of file and inside a longer
+// file, through ReadAt, Read and WriteTo, plus single-chunk writes.
+func xfBigPacketCases(spec xfSrvSpec, cfg xfCfg, rng *rand.Rand, thorough bool) []xfCase {
+	p := cfg.MP
+	var out []xfCase
+	mk := func(api string, S int, o int64, L int) {
+		out = append(out, xfCase{Srv: spec, Cfg: cfg, API: api, Src: "len", RW: rng.Intn(2) == 0, FileLen: S, Off: o, Len: L, Seed: rng.Intn(251)})
+	}
+	for k := 1; k <= 3; k++ {
+		for d := -1; d <= 1; d++ {
+			L := k*p + d
+			if !thorough && (k+d+rng.Intn(2))%2 == 0 && !(k == 3 && d == 0) && !(k == 2 && d == 1) {
+				continue // quick: about half of the nine lengths per job, the two most telling always
+			}
+			mk("ReadAt", L, 0, L)     // ends exactly at end of file
+			mk("ReadAt", 3*p+2, 1, L) // inside a longer file, unaligned start
+			mk("Read", L+1, 1, L)     // implicit offset
+			mk("WriteTo", L, 0, 0)    // whole file
+			if thorough {
+				mk("ReadAt", L-1, 0, L) // crosses end of file
+				mk("WriteTo", L+1, 1, 0)
+			}
+		}
+	}
+	for _, L := range []int{1, 100000, 262000} {
+		mk("WriteAt", 5, 3, L)
+		mk("ReadFrom", 0, 0, L)
+		mk("Write", L/2, 1, L)
+	}
+	return out
 }
 
 func xfMaxTx(spec xfSrvSpec) int {
@@ -281,7 +323,7 @@ func checkC01(c *lib.Ctx) {
 	r := c.R
 	res := &xfRes{r: r}
 	thorough := c.Tier == "thorough"
-	r.Rule = "transfers = server kind {os, rs} x {allocator off,on} x {max-tx default, 65536} plus scripted peer {in order, permuted replies} x client options MaxPacket{Checked,Unchecked} mp in {1,2,3,4,7,32768} (and 40000 against the servers with max-tx 65536) x MaxConcurrentRequestsPerFile in {1,2,3,64} x UseConcurrentReads x UseConcurrentWrites x UseFstat (quick: every (mp,conc) pair three times per server kind with the booleans rotating; thorough: the full product) x API {ReadAt, Read, WriteTo, WriteAt, Write, ReadFrom with sources Len/Size/Stat/LimitedReader/opaque(+1-byte reads, lying or negative Size, oversized limit), ReadFromWithConcurrency 0/1/3} x (file size, offset, length) from {0,1,k*mp-1,k*mp,k*mp+1 (k=1..3), mp*conc+r} and uniform draws up to 3*mp*conc+2 (thorough: every length 0..3*mp*conc+2 for mp<=7, conc<=3); a case is non-trivial when it needs more than one packet or touches end of file; distinct by (server, options, api, source, sizes)"
+	r.Rule = "transfers = server kind {os, rs} x {allocator off,on} x {max-tx default, 65536} plus scripted peer {in order, permuted replies} x client options MaxPacket{Checked,Unchecked} mp in {1,2,3,4,7,32768} (and 40000 against the servers with max-tx 65536; 262131, 262132, 262135 = around the allocator page / frame limit against both servers with max-tx 262144, allocator on and off, reads of k*p-1,k*p,k*p+1 for k<=3) x MaxConcurrentRequestsPerFile in {1,2,3,64} x UseConcurrentReads x UseConcurrentWrites x UseFstat (quick: every (mp,conc) pair three times per server kind with the booleans rotating; thorough: the full product) x API {ReadAt, Read, WriteTo, WriteAt, Write, ReadFrom with sources Len/Size/Stat/LimitedReader/opaque(+1-byte reads, lying or negative Size, oversized limit), ReadFromWithConcurrency 0/1/3} x (file size, offset, length) from {0,1,k*mp-1,k*mp,k*mp+1 (k=1..3), mp*conc+r} and uniform draws up to 3*mp*conc+2 (thorough: every length 0..3*mp*conc+2 for mp<=7, conc<=3); a case is non-trivial when it needs more than one packet or touches end of file; distinct by (server, options, api, source, sizes)"
 	model := xfProbeModel(c)
 	xfProbeDefects(&model)
 	if model.Seq {
@@ -404,6 +446,23 @@ func checkC01(c *lib.Ctx) {
 			}
 		}
 	}
+	// packet sizes around the allocator's page boundary, both servers, allocator on and off
+	for si, kind := range []string{"os", "rs"} {
+		for ai, alloc := range []bool{false, true} {
+			for pi, p := range xfBigPackets {
+				b := si*2 + ai + pi
+				conc := []int{3, 64, 2}[pi]
+				jobs = append(jobs, xfJob{Big: true, Spec: xfSrvSpec{Kind: kind, Alloc: alloc, MaxTx: xfBigMaxTx},
+					Cfg:  xfCfg{MP: p, Unchecked: true, Conc: conc, CR: true, CW: b%2 == 0, Fstat: b%3 == 0},
+					Seed: c.Rand.Int63(), Idx: len(jobs)})
+				if thorough {
+					jobs = append(jobs, xfJob{Big: true, Spec: xfSrvSpec{Kind: kind, Alloc: alloc, MaxTx: xfBigMaxTx},
+						Cfg:  xfCfg{MP: p, Unchecked: true, Conc: 1 + pi, CR: b%2 == 1, CW: b%2 == 1, Fstat: b%3 != 0},
+						Seed: c.Rand.Int63(), Idx: len(jobs)})
+				}
+			}
+		}
+	}
 	variants := xfAPIVariants(thorough)
 	var sampleMu sync.Mutex
 	sampled := map[string]bool{}
@@ -430,6 +489,12 @@ func checkC01(c *lib.Ctx) {
 		hold := &xfPeerHold{slot: w}
 		defer hold.Close()
 		cfg := job.Cfg
+		if job.Big {
+			for _, cs := range xfBigPacketCases(job.Spec, cfg, rng, thorough) {
+				runCase(cs, real, dir, hold)
+			}
+			return
+		}
 		classes := xfSizeClasses(cfg.MP, cfg.Conc)
 		// the lengths this job walks through
 		var lens []int
